@@ -668,6 +668,7 @@ def purity_harness(I: Interp) -> None:
     from . import effects
     n = 0
     for mod in (service, utils, exception, helpers):
+        shared_args = effects.shared_arguments_mutated(mod)
         for q, fn, owner in effects.functions_of(mod):
             if q.endswith(".__init_subclass__"):
                 I.ex.assumptions.add(f"{q} builds a registry at import time (not at run time)")
@@ -677,7 +678,7 @@ def purity_harness(I: Interp) -> None:
             except (OSError, TypeError):
                 continue
             I.ex.functions[q] = hashlib.sha1(src.encode()).hexdigest()[:12]
-            w = effects.shared_state_writes(fn, owner)
+            w = effects.shared_state_writes(fn, owner) + shared_args.get(q, [])
             n += 1
             I.prove(f"E-pure({q.split('gallia.services.uds.')[-1]}):no-store-into-class-or-"
                     "module-state", z3.BoolVal(not w), "; ".join(w))
